@@ -6,3 +6,6 @@ impl<A> OwnView for PayloadStreamObj<A> { open spec fn own(&self) -> Own { own_n
 #[verifier::external_body]
 pub fn poll_fn_stream<A>(f: BoxedFn<(A,)>) -> (r: PayloadStreamObj<A>) ensures r.chan() == f.cap0() { unimplemented!() }
 #[verifier::external_body] #[verifier::accept_recursive_types(A)] pub struct TaskFnObj<A> { p: core::marker::PhantomData<A> }
+
+// the boxed future a waiting submit closure returns (`Pin<Box<dyn Future<Output = Result<()>> + Send>>`); only its identity matters to the adapter contracts
+#[verifier::external_body] pub struct SubmitFut { x: u8 }
